@@ -82,6 +82,9 @@ func c19Drivers() []*icCfg {
 		{Name: "R4-close-vs-all", O: big, Pre: []icOp{S(1)}, Scripts: [][]icOp{{{Kind: "close"}}, {S(2), G(1)}}},
 		{Name: "R4c-close-vs-delete", O: big, Pre: []icOp{S(1)}, Scripts: [][]icOp{{{Kind: "close"}}, {D(1), S(1)}}},
 		{Name: "R4b-close-vs-wait", O: big, Pre: []icOp{S(1)}, Scripts: [][]icOp{{{Kind: "close"}}, {S(2), G(1)}, {D(1), {Kind: "wait"}}}},
+		// Close overlapping the once-per-second maintenance tick (which reads the closed mark and walks the wheel)
+		{Name: "R4d-close-vs-tick", O: big, Pre: []icOp{T(1, sec)}, Scripts: [][]icOp{{{Kind: "close"}}, {tick}}},
+		{Name: "R4e-close-vs-tick-vs-set", O: big, Pre: []icOp{T(1, sec)}, Scripts: [][]icOp{{{Kind: "close"}}, {tick}, {S(2)}}},
 		{Name: "R5-loading", O: big, Loading: true, LoadCost: 1, Scripts: [][]icOp{{L(1), G(1)}, {L(1)}, {S(1), D(1)}}},
 		{Name: "R6-update-vs-evict", O: small, Pre: []icOp{S(1)}, Scripts: [][]icOp{{S(1), S(1)}, {S(2)}, {G(1), {Kind: "range"}}}},
 		// read buffer with every atomic a scheduling point and capacity 2 (build schedTrackBuf): drains, Free and refills overlap
